@@ -1,28 +1,36 @@
 """C12 — each pipeline transformation equals its documented source-level rewrite.
 
 For a rule and one built-in transformation (or a short chain / a nested pipeline) two things are compared as
-truth tables over all atoms (Lean driver `rule.sem`):
+truth tables over all atoms (Lean driver `rewrite.case`):
   * the query the real backend emits for the rule converted *through* a pipeline containing the transformation,
-  * the Lean specification reading of the rule document *rewritten by hand* as the transformation is documented
-    (the rewriters below are written from the documentation, not from the code).
+  * the Lean specification reading (`Rule.ruleBE`) of the rule document rewritten by the **Lean** function that
+    writes down the documented effect of the transformation (`lean/SigmaVerif/Spec/Rewrite.lean`, theorems about
+    these functions in `Props/C12.lean`).  The driver receives the ORIGINAL document and the description of the
+    transformation (built from the pipeline YAML by `tr_desc`), rewrites, and judges as `rule.sem` does.
+The Python rewriters below (written from the documentation, not from the code) are kept as a second, independent
+implementation: the document they produce is compared with the document the Lean rewrite produced; a difference is
+reported as drift (one of the two misreads the documentation).  The `fields` list of the rule after the pipeline is
+compared with the `fields` list of the Lean-rewritten document.
 Identity instances (a regular expression matching nothing, an empty mapping, a placeholder include list naming
 nothing, a condition scope that matches nothing) must leave every query unchanged."""
 from __future__ import annotations
-import copy, random, re
+import copy, json, random, re
 from .common import Verdict, cps, outcome_of_exception
 from . import qsyntax, c01
 from .c03 import plain
 
 ID = "C12"
-GEN = ["Mods"]
+GEN = ["Mods", "Transf"]
 RULE = ("rules as in C01 (smaller pool) x single transformations with parameter variations {field_name_mapping 1:1, 1:N, "
         "keyword-to-field; field_name_prefix; field_name_suffix; field_name_prefix_mapping; drop_detection_item scoped by field; "
         "add_condition plain/negated/templated; replace_string; map_string 1:1/1:N; case lower/upper; set_value; convert_type; "
-        "nest of two; identity instances of each} x condition scopes (field include/exclude); distinct = distinct (rule, "
+        "add_field/remove_field/set_field; nest of two; identity instances of each; 35% of the cases: one item or a nest of 2-3 items with random "
+        "parameters (mappings onto existing names, several prefixes, regexes, set_value of every plain type, templates, random include/exclude field lists)} x condition scopes (field include/exclude); distinct = distinct (rule, "
         "transformation); non-trivial = the transformation changes at least one atom or is an identity instance")
 ASSUMPTIONS = c01.ASSUMPTIONS[:2] + [
-    "the documented rewrites are implemented in this harness (Python) and interpreted by the Lean rule semantics",
-    "Python re performs the substitutions of replace_string (the substitution function is a parameter of the rewrite)",
+    "the documented rewrites are the Lean functions of Spec/Rewrite.lean, interpreted by the Lean rule semantics; the Python rewriters of this harness are a cross-check (drift)",
+    "Python re performs the substitutions of replace_string (the substitution function is a parameter of the rewrite, sent as a table over the plain forms of the strings of the rule)",
+    "case mapping is ASCII (Lean Char.toLower/toUpper) on the generated alphabet",
 ]
 CFG = {"prec": ["not", "and", "or"], "parenthesize": False, "orAsIn": False, "andAsIn": False, "inAllowWild": False, "notAsNotEq": False,
        "sw": True, "ew": True, "ct": True, "wm": False, "cased": "all", "explicitNotExists": False, "nativeCidr": True}
@@ -38,7 +46,7 @@ def gen_rule(rnd):
             d = {}
             for _ in range(rnd.choice([1, 2, 2])):
                 f = rnd.choice(FIELDS)
-                m = rnd.choice(["", "", "|contains", "|startswith", "|cased", "|contains|all", "|fieldref"])
+                m = rnd.choice(["", "", "|contains", "|startswith", "|cased", "|contains|all", "|fieldref", "|all"])
                 if m == "|fieldref":
                     d[f + m] = rnd.choice(FIELDS)
                 elif rnd.random() < 0.6:
@@ -52,13 +60,87 @@ def gen_rule(rnd):
             dets[nm] = rnd.choice([["kw1", "kw*2"], "single", ["x", "y z"]])
     names = list(dets)
     conds = {1: ["{0}", "not {0}"], 2: ["{0} and {1}", "{0} or not {1}", "1 of them"], 3: ["{0} and ({1} or {2})", "all of them", "{0} and not 1 of sel*"]}[len(names)]
-    return {"dets": dets, "cond": rnd.choice(conds).format(*names), "logsource": {"category": "cat", "product": "prod"}}
+    rule = {"dets": dets, "cond": rnd.choice(conds).format(*names), "logsource": {"category": "cat", "product": "prod"}}
+    if rnd.random() < 0.4:
+        rule["fields"] = rnd.sample(FIELDS, rnd.choice([1, 2, 3]))
+    return rule
+
+
+TARGETS = ["m1", "m2", "x.y", "fieldB", "win.user", "t_3"]
+
+
+def rand_scope(rnd):
+    r = rnd.random()
+    if r < 0.5:
+        return None
+    return [{"type": rnd.choice(["include_fields", "exclude_fields"]), "fields": rnd.sample(FIELDS + ["nosuchfield"], rnd.choice([1, 2, 3]))}]
+
+
+def rand_item(rnd, depth=0):
+    """one pipeline item with random parameters, as it would be written in pipeline YAML"""
+    ty = rnd.choice(["field_name_mapping", "field_name_mapping", "field_name_prefix", "field_name_suffix", "field_name_prefix_mapping", "drop_detection_item",
+                     "add_condition", "replace_string", "map_string", "case", "set_value", "convert_type", "add_field", "remove_field", "set_field"]
+                    + (["nest", "nest"] if depth == 0 else []))
+    y = {"type": ty}
+    scoped = True
+    if ty == "field_name_mapping":
+        y["mapping"] = {f: (rnd.choice(TARGETS) if rnd.random() < 0.6 else rnd.sample(TARGETS, rnd.choice([2, 3]))) for f in rnd.sample(FIELDS, rnd.choice([1, 2, 3]))}
+        if rnd.random() < 0.15:
+            y["_kw"] = rnd.choice(["msg", "raw"])      # the keyword entry (key None) is kept apart: JSON has no null keys
+            scoped = False
+    elif ty == "field_name_prefix":
+        y["prefix"] = rnd.choice(["p.", "_", "x-"])
+    elif ty == "field_name_suffix":
+        y["suffix"] = rnd.choice([".s", "_raw", "-1"])
+    elif ty == "field_name_prefix_mapping":
+        y["mapping"] = {a: (rnd.choice(["w_", "x.", ""]) if rnd.random() < 0.7 else ["a.", "b."]) for a in rnd.sample(["win.", "field", "win.p", "zzz"], rnd.choice([1, 2]))}
+    elif ty == "drop_detection_item":
+        y["field_name_conditions"] = [{"type": rnd.choice(["include_fields", "exclude_fields"]), "fields": rnd.sample(FIELDS, rnd.choice([1, 2]))}]
+        return y
+    elif ty == "add_condition":
+        y["conditions"] = rnd.choice([{"idx": "main"}, {"src": ["a", "b"], "n": 5}, {"idx": "$category-x", "other|contains": "$product"}, {"k|all": ["u", "v"]}])
+        if rnd.random() < 0.4:
+            y["negated"] = True
+        if rnd.random() < 0.4:
+            y["template"] = True
+        scoped = False
+    elif ty == "replace_string":
+        y["regex"] = rnd.choice(["^a", "b", "c$", "[xy]", "Z+", "a(.)c"])
+        y["replacement"] = rnd.choice(["X", "", "Q_"])
+    elif ty == "map_string":
+        y["mapping"] = {plain_form(k): (rnd.choice(["mapped", "other"]) if rnd.random() < 0.6 else rnd.sample(["m1", "m2", "m3"], rnd.choice([1, 2, 3])))
+                        for k in rnd.sample(STRS, rnd.choice([0, 1, 2]))}      # keys are plain strings
+    elif ty == "case":
+        y["method"] = rnd.choice(["lower", "upper"])
+    elif ty == "set_value":
+        y["value"] = rnd.choice(["fixed", 7, True, None, "with space"])
+    elif ty == "convert_type":
+        y["target_type"] = "str"
+    elif ty == "add_field":
+        y["field"] = rnd.choice(["extra", ["e1", "fieldA"]])
+        scoped = False
+    elif ty == "remove_field":
+        y["field"] = rnd.choice(["fieldA", ["fieldB", "nosuchfield"], ["win.proc", "win.proc"]])
+        scoped = False
+    elif ty == "set_field":
+        y["fields"] = rnd.choice([[], ["only.this"], ["a", "b"]])
+        scoped = False
+    elif ty == "nest":
+        y["items"] = [rand_item(rnd, 1) for _ in range(rnd.choice([2, 2, 3]))]
+        scoped = False
+    if scoped:
+        sc = rand_scope(rnd)
+        if sc:
+            y["field_name_conditions"] = sc
+    return y
 
 
 def gen_transformation(rnd):
+    if rnd.random() < 0.35:
+        return {"kind": "rand", "scope": None, "yaml": rand_item(rnd)}
     kind = rnd.choice(["map11", "map1n", "kw2field", "prefix", "suffix", "prefixmap", "drop", "addcond", "addcond_neg", "addcond_tpl",
                        "replace", "replace_id", "mapstr", "mapstr_n", "mapstr_id", "case_lower", "case_upper", "setvalue", "convert_str",
-                       "map_empty", "ph_id", "scope_none", "nest"])
+                       "map_empty", "ph_id", "scope_none", "nest", "add_field", "remove_field", "set_field"])
     scope = rnd.choice([None, None, ("include", ["fieldA"]), ("exclude", ["fieldA", "win.proc"])])
     return {"kind": kind, "scope": scope}
 
@@ -70,8 +152,18 @@ def gen_cases(tier, seed, gen, effort):
 
 
 # ------------------------------------------------------------------ pipeline YAML for a transformation
+def _unkw(y):
+    if "_kw" in y:
+        y["mapping"][None] = y.pop("_kw")
+    for x in y.get("items", []):
+        _unkw(x)
+    return y
+
+
 def t_yaml(t):
     k = t["kind"]
+    if k == "rand":
+        return _unkw(copy.deepcopy(t["yaml"]))
     d = {
         "map11": {"type": "field_name_mapping", "mapping": {"fieldA": "mappedA", "win.user": "user"}},
         "map1n": {"type": "field_name_mapping", "mapping": {"fieldA": ["m1", "m2"]}},
@@ -94,6 +186,9 @@ def t_yaml(t):
         "convert_str": {"type": "convert_type", "target_type": "str"},
         "map_empty": {"type": "field_name_mapping", "mapping": {}},
         "ph_id": {"type": "wildcard_placeholders", "include": ["nosuchplaceholder"]},
+        "add_field": {"type": "add_field", "field": ["extra", "fieldA"]},
+        "remove_field": {"type": "remove_field", "field": ["fieldA", "nosuchfield", "fieldA"]},
+        "set_field": {"type": "set_field", "fields": ["only.this"]},
         "scope_none": {"type": "field_name_suffix", "suffix": ".never", "field_name_conditions": [{"type": "include_fields", "fields": ["nosuchfield"]}]},
     }
     if k == "nest":
@@ -138,6 +233,32 @@ def unesc(s):
     return "".join(out)
 
 
+REPLACE_RE = {"replace": "^a", "replace_id": "ZZZZ"}
+REPLACE_TO = {"replace": "X", "replace_id": "Y"}
+MAPSTR = {"mapstr": {"abc": "mapped", "val": "other"}, "mapstr_n": {"abc": ["m1", "m2"], "foo": ["f1"]}, "mapstr_id": {}}
+
+
+def plain_form(s):
+    """the plain string a value written in Sigma string syntax stands for (an escaped backslash is one backslash; wildcards and
+    escaped wildcards stay as written)"""
+    out, i = [], 0
+    while i < len(s):
+        if s[i] == "\\" and i + 1 < len(s):
+            out.append(s[i + 1] if s[i + 1] == "\\" else s[i:i + 2]); i += 2
+        else:
+            out.append(s[i]); i += 1
+    return "".join(out)
+
+
+def reescape(s):
+    """back to Sigma string syntax: a backslash that does not escape a wildcard is doubled"""
+    return re.sub(r"\\(?![*?])", r"\\\\", s)
+
+
+def num_text(v):
+    return "".join(chr(c) for c in plain(v)["num"])
+
+
 def rewrite_value(t, v, mods):
     """-> list of replacement values (documented value transformations work on the plain string form)"""
     k = t["kind"]
@@ -145,15 +266,14 @@ def rewrite_value(t, v, mods):
         return ["fixed"]
     if not isinstance(v, str):
         if k == "convert_str" and isinstance(v, (int, float)) and not isinstance(v, bool):
-            return [str(v)]
-        if k == "replace" and isinstance(v, (int, float)) and not isinstance(v, bool):
-            return [re.sub("^a", "X", str(v))]
+            return [num_text(v)]
+        if k in REPLACE_RE and isinstance(v, (int, float)) and not isinstance(v, bool):
+            return [reescape(re.sub(REPLACE_RE[k], REPLACE_TO[k], num_text(v)))]      # a number is taken as its text
         return [v]
-    if k == "replace":
-        return [re.sub("^a", "X", v)]
-    if k in ("mapstr", "mapstr_n"):
-        m = {"mapstr": {"abc": "mapped", "val": "other"}, "mapstr_n": {"abc": ["m1", "m2"], "foo": ["f1"]}}[k]
-        r = m.get(v)
+    if k in REPLACE_RE:
+        return [reescape(re.sub(REPLACE_RE[k], REPLACE_TO[k], plain_form(v)))]      # "operates on the plain string representation"
+    if k in MAPSTR:
+        r = MAPSTR[k].get(plain_form(v))
         if r is None:
             return [v]
         return r if isinstance(r, list) else [r]
@@ -164,33 +284,39 @@ def rewrite_value(t, v, mods):
     return [v]
 
 
-VALUE_KINDS = ("replace", "mapstr", "mapstr_n", "case_lower", "case_upper", "setvalue", "convert_str")
+VALUE_KINDS = ("replace", "replace_id", "mapstr", "mapstr_n", "mapstr_id", "case_lower", "case_upper", "setvalue", "convert_str")
+LIST_MODS = ("all", "neq")
+SOFT_MODS = ("cased", "all", "neq")
 
 
 def rewrite_item(t, key, val):
-    """one map entry -> fragments to AND: ('map', key, values) | ('or', [(key, values)...]); [] = dropped; None = not expressible"""
+    """one map entry -> ('one', key, values) item in its place | ('sub', det) sub-detection in its place | ('gone',) dropped |
+    None = the documented effect is not expressible as a source-level rewrite"""
     k = t["kind"]
     field, mods = split_key(key)
     vals = val if isinstance(val, list) else [val]
     ms = "".join("|" + m for m in mods)
     is_ref = "fieldref" in mods
     # a field name condition matches a detection item through its field *or* through a field it references
-    item_in = in_scope(t, field) or (is_ref and any(in_scope(t, v) for v in vals))
+    item_in = in_scope(t, field) or (is_ref and any(in_scope(t, v) for v in vals if isinstance(v, str)))
     if not item_in:
-        return [("map", key, vals)]
+        return ("one", key, vals)
     if k == "drop":
-        return []
+        return ("gone",)
     if k in VALUE_KINDS:
-        if "re" in mods or (is_ref and k != "setvalue"):
-            return [("map", key, vals)]
-        if "contains" in mods or "startswith" in mods or "endswith" in mods:
-            return None      # value transformations see the value after the modifiers added wildcards: not expressible at source level here
-        new = []
-        for v in vals:
-            new += rewrite_value(t, v, mods)
         if k == "setvalue":
-            key = (field or "") + "".join("|" + m for m in mods if m not in ("cased", "fieldref"))     # the configured value replaces value *and* type
-        return [("map", key, new)]
+            # the configured value replaces value *and* type: what the value modifiers made of the old values is void
+            return ("one", (field or "") + "".join("|" + m for m in mods if m in LIST_MODS), [x for v in vals for x in rewrite_value(t, v, mods)])
+        if "re" in mods or is_ref:
+            return ("one", key, vals)
+        if any(m not in SOFT_MODS for m in mods):
+            return None      # value transformations see the value after the modifiers changed it: not expressible at source level here
+        alts = [rewrite_value(t, v, mods) for v in vals]
+        if "all" in mods and any(len(a) > 1 for a in alts):
+            # the alternatives of one value stay alternatives also when the values are AND-linked
+            k2 = (field or "") + "".join("|" + m for m in mods if m != "all")
+            return ("sub", {"all": [{"map": [[cps(k2), pv(a)]]} for a in alts]})
+        return ("one", key, [x for a in alts for x in a])
 
     def rn(f):
         if f is None:
@@ -212,38 +338,61 @@ def rewrite_item(t, key, val):
         if is_ref:
             newvals = []
             for v in vals:
-                newvals += rn(v) if in_scope(t, v) else [v]
+                newvals += (rn(v) if in_scope(t, v) else [v]) if isinstance(v, str) else [v]
             vals = newvals
         targets = rn(field) if in_scope(t, field) else [field]
         if len(targets) == 1:
-            return [("map", (targets[0] or "") + ms, vals)]
-        return [("or", [((x or "") + ms, vals) for x in targets])]
-    return [("map", key, vals)]
+            return ("one", (targets[0] or "") + ms, vals)
+        return ("sub", {"list": [{"map": [[cps((x or "") + ms), pv(vals)]]} for x in targets]})
+    return ("one", key, vals)
 
 
 def pv(vals):
     return [plain(v) for v in vals]
 
 
+def rewrite_fields(t, fields):
+    if t["kind"] == "add_field":
+        return list(fields) + ["extra", "fieldA"]
+    if t["kind"] == "remove_field":
+        out = list(fields)
+        for f in ["fieldA", "nosuchfield", "fieldA"]:      # each listed name removes its first occurrence, if any
+            if f in out:
+                out.remove(f)
+        return out
+    if t["kind"] == "set_field":
+        return ["only.this"]
+    if t["kind"] not in ("map11", "map1n", "prefix", "suffix", "prefixmap", "nest"):
+        return list(fields)
+    out = []
+    for f in fields:
+        r = rewrite_item(t, f, [])
+        if r[0] == "one":
+            out.append(r[1])
+        elif r[0] == "sub" and "list" in r[1]:
+            out += ["".join(chr(c) for c in x["map"][0][0]) for x in r[1]["list"]]
+        else:
+            out.append(f)
+    return out
+
+
 def rewrite_det(t, d):
-    """-> Det JSON, or None if the documented rewrite is not expressible here (case skipped)"""
+    """-> Det JSON (shape as `Rewrite.assemble`: a map whose items stay items stays a map, otherwise the AND of its pieces in
+    order), "EMPTY" if everything was dropped, or None if the documented rewrite is not expressible here"""
     k = t["kind"]
     if isinstance(d, dict):
-        parts, flat = [], []
+        pieces = []
         for key, val in d.items():
             r = rewrite_item(t, key, val)
             if r is None:
                 return None
-            for x in r:
-                if x[0] == "map":
-                    flat.append([cps(x[1]), pv(x[2])])
-                else:
-                    parts.append({"list": [{"map": [[cps(kk), pv(vv)]]} for kk, vv in x[1]]})
-        if not flat and not parts:
+            if r[0] != "gone":
+                pieces.append(r)
+        if not pieces:
             return "EMPTY"
-        if not parts:
-            return {"map": flat}
-        return {"all": ([{"map": flat}] if flat else []) + parts}
+        if all(x[0] == "one" for x in pieces):
+            return {"map": [[cps(x[1]), pv(x[2])] for x in pieces]}
+        return {"all": [({"map": [[cps(x[1]), pv(x[2])]]} if x[0] == "one" else x[1]) for x in pieces]}
     if isinstance(d, list) and all(not isinstance(x, (dict, list)) for x in d) or not isinstance(d, (dict, list)):
         vals = d if isinstance(d, list) else [d]
         if k == "drop" and in_scope(t, None):
@@ -268,27 +417,162 @@ def rewrite_det(t, d):
 
 
 def rewrite_rule(case):
+    """-> {"dets": [(name, Det JSON)], "cond": text, "fields": [...]} or {"err": "notExpressible" | "emptied"}"""
     t = case["t"]
     k = t["kind"]
-    dets = {}
+    dets = []
     cond = case["rule"]["cond"]
     for nm, d in case["rule"]["dets"].items():
         r = rewrite_det(t, d)
         if r is None:
-            return None
+            return {"err": "notExpressible"}
         if r == "EMPTY":
-            return None          # a detection emptied by dropping: its operand vanishes (C02 'modelled, not judged')
-        dets[nm] = r
+            return {"err": "emptied"}          # a detection emptied by dropping: its operand vanishes (C02 'modelled, not judged')
+        dets.append((nm, r))
     if k == "addcond":
-        dets["_added"] = {"map": [[cps("idx"), pv(["main"])], [cps("src"), pv(["a", "b"])]]}
+        dets.append(("_added", {"map": [[cps("idx"), pv(["main"])], [cps("src"), pv(["a", "b"])]]}))
         cond = f"_added and ({cond})"
     elif k == "addcond_neg":
-        dets["_added"] = {"map": [[cps("idx"), pv(["excluded"])]]}
+        dets.append(("_added", {"map": [[cps("idx"), pv(["excluded"])]]}))
         cond = f"not _added and ({cond})"
     elif k == "addcond_tpl":
-        dets["_added"] = {"map": [[cps("idx"), pv(["cat-prod"])]]}
+        dets.append(("_added", {"map": [[cps("idx"), pv(["cat-prod"])]]}))
         cond = f"_added and ({cond})"
-    return dets, cond
+    return {"dets": dets, "cond": cond, "fields": rewrite_fields(t, case["rule"].get("fields", []))}
+
+
+# ------------------------------------------------------------------ the original document and the transformation, for the Lean rewrite
+def det_json(d):
+    if isinstance(d, dict):
+        return {"map": [[cps(k), pv(v if isinstance(v, list) else [v])] for k, v in d.items()]}
+    if isinstance(d, list) and any(isinstance(x, (dict, list)) for x in d):
+        return {"list": [det_json(x) for x in d]}
+    return {"values": pv(d if isinstance(d, list) else [d])}
+
+
+def scope_desc(y):
+    fc = y.get("field_name_conditions")
+    if not fc:
+        return None
+    return {"mode": "include" if fc[0]["type"] == "include_fields" else "exclude", "fields": [cps(f) for f in fc[0]["fields"]]}
+
+
+def aslist(v):
+    return v if isinstance(v, list) else [v]
+
+
+def yaml_strings(y, acc):
+    if isinstance(y, dict):
+        for v in y.values():
+            yaml_strings(v, acc)
+    elif isinstance(y, list):
+        for v in y:
+            yaml_strings(v, acc)
+    elif isinstance(y, str):
+        acc.add(y)
+    return acc
+
+
+def text_universe(y, rule):
+    """every string (in Sigma string syntax) a value of the rule can be when an item of the (nested) pipeline `y` sees it: the
+    rule's own texts and the pipeline's string constants, closed under case mapping and the pipeline's substitutions"""
+    raw = set()
+    import string
+    ls = rule["logsource"]
+    for t in all_raw_texts(rule["dets"], set()) | yaml_strings(y, set()):
+        raw.add(t)
+        if "$" in t:      # templated conditions
+            raw.add(string.Template(t).safe_substitute(category=ls.get("category"), product=ls.get("product"), service=ls.get("service")))
+    subs = []
+
+    def collect(x):
+        if x["type"] == "replace_string":
+            subs.append((re.compile(x["regex"]), x["replacement"]))
+        for z in x.get("items", []):
+            collect(z)
+    collect(y)
+    for _ in range(3):
+        new = set()
+        for t in raw:
+            new |= {t.upper(), t.lower()}
+            for rx, rep in subs:
+                new.add(reescape(rx.sub(rep, plain_form(t))))
+        if new <= raw:
+            break
+        raw |= new
+    return raw
+
+
+def all_raw_texts(d, acc):
+    if isinstance(d, dict):
+        for v in d.values():
+            all_raw_texts(v, acc)
+    elif isinstance(d, list):
+        for v in d:
+            all_raw_texts(v, acc)
+    elif isinstance(d, str):
+        acc.add(d)
+    elif isinstance(d, (int, float)) and not isinstance(d, bool):
+        acc.add(num_text(d))
+    return acc
+
+
+def tr_desc(y, rule, names=None, universe=None):
+    """description of one pipeline item (as written in pipeline YAML) for `Driver.trOfJson`"""
+    ty, sc = y["type"], scope_desc(y)
+    names = names if names is not None else []      # the added detections get distinct names (the code draws random ones)
+    universe = universe if universe is not None else text_universe(y, rule)
+    if ty == "field_name_mapping":
+        m = y["mapping"]
+        r = {"t": "rename", "fn": {"k": "table", "tbl": [[cps(a), [cps(x) for x in aslist(b)]] for a, b in m.items() if a is not None]}, "scope": sc}
+        if None in m:
+            kw = {"t": "kw2field", "g": cps(m[None])}
+            return kw if len(m) == 1 else {"t": "nest", "items": [r, kw]}
+        return r
+    if ty == "field_name_prefix":
+        return {"t": "rename", "fn": {"k": "prefix", "s": cps(y["prefix"])}, "scope": sc}
+    if ty == "field_name_suffix":
+        return {"t": "rename", "fn": {"k": "suffix", "s": cps(y["suffix"])}, "scope": sc}
+    if ty == "field_name_prefix_mapping":
+        return {"t": "rename", "fn": {"k": "prefixMap", "tbl": [[cps(a), [cps(x) for x in aslist(b)]] for a, b in y["mapping"].items()]}, "scope": sc}
+    if ty == "drop_detection_item":
+        return {"t": "drop", "scope": sc}
+    if ty == "add_condition":
+        ls = rule["logsource"]
+        names.append("_added" if not names else f"_added_{len(names)}")
+        return {"t": "addCond", "name": cps(names[-1]), "items": [[cps(a), pv(aslist(b))] for a, b in y["conditions"].items()],
+                "negated": bool(y.get("negated")), "template": bool(y.get("template")),
+                "vars": [[cps(n), cps(str(ls.get(n)))] for n in ("category", "product", "service")]}
+    if ty == "replace_string":
+        rx = re.compile(y["regex"])
+        return {"t": "value", "vt": {"k": "replace", "tbl": [[cps(x), cps(rx.sub(y["replacement"], x))] for x in sorted({plain_form(t) for t in universe})]}, "scope": sc}
+    if ty == "map_string":
+        return {"t": "value", "vt": {"k": "map", "tbl": [[cps(a), [cps(x) for x in aslist(b)]] for a, b in y["mapping"].items()]}, "scope": sc}
+    if ty == "case":
+        return {"t": "value", "vt": {"k": y["method"]}, "scope": sc}
+    if ty == "set_value":
+        return {"t": "value", "vt": {"k": "set", "v": plain(y["value"])}, "scope": sc}
+    if ty == "convert_type" and y["target_type"] == "str":
+        return {"t": "value", "vt": {"k": "convertStr"}, "scope": sc}
+    if ty == "nest":
+        return {"t": "nest", "items": [tr_desc(x, rule, names, universe) for x in y["items"]]}
+    if ty == "add_field":
+        return {"t": "addFields", "fields": [cps(f) for f in aslist(y["field"])]}
+    if ty == "remove_field":
+        return {"t": "removeFields", "fields": [cps(f) for f in aslist(y["field"])]}
+    if ty == "set_field":
+        return {"t": "setFields", "fields": [cps(f) for f in y["fields"]]}
+    if ty == "wildcard_placeholders":
+        return {"t": "nest", "items": []}      # placeholders are part of the rule semantics (C17); the generated rules have none
+    raise ValueError(f"no Lean rewrite for {ty}")
+
+
+def rule_dict(case):
+    r = {"title": "t", "logsource": case["rule"]["logsource"],
+         "detection": {**copy.deepcopy(case["rule"]["dets"]), "condition": case["rule"]["cond"]}}
+    if "fields" in case["rule"]:
+        r["fields"] = list(case["rule"]["fields"])
+    return r
 
 
 def run_impl(case):
@@ -296,15 +580,14 @@ def run_impl(case):
     from sigma.processing.pipeline import ProcessingPipeline
     try:
         pl = ProcessingPipeline.from_dict({"name": "p", "priority": 1, "transformations": [t_yaml(case["t"])]})
-        coll = SigmaCollection.from_dicts([{"title": "t", "logsource": case["rule"]["logsource"],
-                                            "detection": {**copy.deepcopy(case["rule"]["dets"]), "condition": case["rule"]["cond"]}}])
+        coll = SigmaCollection.from_dicts([rule_dict(case)])
         qs = qsyntax.make_backend(CFG)(pl).convert(coll)
+        fields = [str(f) for f in coll.rules[0].fields]      # the pipeline ran on the rule object of the collection
         ref = None
         if case["t"]["kind"] in ("replace_id", "mapstr_id", "map_empty", "ph_id", "scope_none"):
-            coll2 = SigmaCollection.from_dicts([{"title": "t", "logsource": case["rule"]["logsource"],
-                                                 "detection": {**copy.deepcopy(case["rule"]["dets"]), "condition": case["rule"]["cond"]}}])
+            coll2 = SigmaCollection.from_dicts([rule_dict(case)])
             ref = qsyntax.make_backend(CFG)().convert(coll2)
-        return {"outcome": "ok", "queries": qs, "ref": ref}
+        return {"outcome": "ok", "queries": qs, "ref": ref, "fields": fields}
     except NotImplementedError as e:
         return {"outcome": "unsupported", "msg": str(e)[:100]}
     except Exception as e:
@@ -312,17 +595,18 @@ def run_impl(case):
 
 
 def make_request(case, impl, gen):
-    rw = rewrite_rule(case)
-    if rw is None or impl["outcome"] != "ok":
+    if impl["outcome"] != "ok":
         return {"op": "ping"}
-    dets, cond = rw
-    it = {"cond": cps(cond)}
-    try:
-        it["query"] = qsyntax.tokenize(impl["queries"][0])
-    except qsyntax.Tokenize as e:
-        it["tokErr"] = str(e)
-    return {"op": "rule.batch", "dets": [{"name": cps(n), "det": d} for n, d in dets.items()], "cfg": {"prec": CFG["prec"], "nativeCidr": True},
-            "wordChars": [], "items": [it]}
+    rule = case["rule"]
+    qs = []
+    for q in impl["queries"]:
+        try:
+            qs.append(qsyntax.tokenize(q))
+        except qsyntax.Tokenize as e:
+            qs.append({"tokErr": str(e)})
+    return {"op": "rewrite.case", "dets": [{"name": cps(n), "det": det_json(d)} for n, d in rule["dets"].items()],
+            "conds": [cps(rule["cond"])], "fields": [cps(f) for f in rule.get("fields", [])],
+            "tr": tr_desc(t_yaml(case["t"]), rule), "cfg": {"prec": CFG["prec"], "nativeCidr": True}, "wordChars": [], "queries": qs}
 
 
 def _d3(case):
@@ -338,6 +622,61 @@ def _has_number(d):
     return isinstance(d, (int, float)) and not isinstance(d, bool)
 
 
+def _doc_drift(case, reply):
+    """the document of the Python rewriters against the document of the Lean rewrite -> description of the difference or None"""
+    py = rewrite_rule(case)
+    if "rwErr" in reply:
+        return None if py.get("err") == reply["rwErr"] else f"Lean rewrite: {reply['rwErr']}; Python rewriters: {py.get('err') or 'a document'}"
+    if "err" in py:
+        return f"Python rewriters: {py['err']}; Lean rewrite: a document"
+    lean = reply["doc"]
+    mine = {"dets": [{"name": cps(n), "det": d} for n, d in py["dets"]], "conds": [cps(py["cond"])], "fields": [cps(f) for f in py["fields"]]}
+    for part in ("dets", "conds", "fields"):
+        if json.dumps(lean[part], sort_keys=True) != json.dumps(mine[part], sort_keys=True):
+            return f"{part} differ: Lean {show_doc_part(part, lean[part])} / Python {show_doc_part(part, mine[part])}"
+    return None
+
+
+def show_doc_part(part, x):
+    from .common import uncps
+
+    def sv(v):
+        if not isinstance(v, dict):
+            return v
+        if "str" in v:
+            return uncps(v["str"])
+        t = uncps(v["num"])
+        return int(t) if t.lstrip("-").isdigit() else float(t)
+
+    def sd(d):
+        if "map" in d:
+            return {uncps(k): [sv(v) for v in vs] for k, vs in d["map"]}
+        if "values" in d:
+            return [sv(v) for v in d["values"]]
+        return {("OR" if "list" in d else "AND"): [sd(y) for y in d.get("list", d.get("all"))]}
+    if part == "dets":
+        return {uncps(d["name"]): sd(d["det"]) for d in x}
+    return [uncps(c) for c in x]
+
+
+def _sets_null(y):
+    return (y.get("type") == "set_value" and "value" in y and y["value"] is None) or any(_sets_null(x) for x in y.get("items", []))
+
+
+def _has_keyword(d):
+    if isinstance(d, dict):
+        return False
+    if isinstance(d, list):
+        return any(_has_keyword(x) if isinstance(x, (dict, list)) else True for x in d)
+    return True
+
+
+def _null_keyword(case, impl):
+    """set_value with a null value on a rule with a keyword item: TypeError from the backend (former defect D12k, fixed in /repo 8ae24c8; kept for the regression tag only)"""
+    return (impl["outcome"] == "other:TypeError" and "SigmaNull" in (impl.get("msg") or "") and _sets_null(t_yaml(case["t"]))
+            and any(_has_keyword(d) for d in case["rule"]["dets"].values()))
+
+
 def judge(case, impl, reply):
     io = impl["outcome"]
     k = case["t"]["kind"]
@@ -351,8 +690,20 @@ def judge(case, impl, reply):
     if impl["ref"] is not None and impl["queries"] != impl["ref"]:
         return Verdict("violation", f"identity instance {t_yaml(case['t'])} changed the query of {case['rule']['dets']} / {case['rule']['cond']}: {impl['queries']} instead of {impl['ref']}",
                        True, key, finding=fid, tags=tuple(tags))
-    if "items" not in reply:
-        return Verdict("ok", "", False, key, tags=tuple(tags + ["unjudged:rewrite-not-expressible"]))
+    drift = _doc_drift(case, reply) if k != "rand" else None      # random parameters: no Python rewriter, the Lean rewrite alone is the oracle
+    if k == "rand":
+        tags.append("rand:" + case["t"]["yaml"]["type"])
+    if drift:
+        return Verdict("drift", f"transformation {t_yaml(case['t'])} on {case['rule']['dets']}: {drift}", True, key, tags=tuple(tags + ["drift"]))
+    if "rwErr" in reply:
+        return Verdict("ok", "", False, key, tags=tuple(tags + ["unjudged:" + ("rewrite-not-expressible" if reply["rwErr"] == "notExpressible" else "emptied-detection")]))
+    lean_fields = ["".join(chr(c) for c in f) for f in reply["doc"]["fields"]]
+    if lean_fields != impl["fields"]:
+        return Verdict("violation", (f"transformation {t_yaml(case['t'])} on a rule with fields list {case['rule'].get('fields')}: the list is {impl['fields']} after the "
+                                     f"pipeline, the documented rewrite gives {lean_fields}"), True, key, finding=fid, tags=tuple(tags))
+    if len(impl["queries"]) != 1:
+        return Verdict("violation", f"transformation {t_yaml(case['t'])} on {case['rule']['dets']} / {case['rule']['cond']!r}: {len(impl['queries'])} queries emitted, the documented rewrite "
+                                    f"is the rule {show_doc_part('dets', reply['doc']['dets'])}", True, key, finding=fid, tags=tuple(tags))
     r = reply["items"][0]
     if "tokErr" in r:
         return Verdict("violation", f"query not well-formed ({r['tokErr']}): {impl['queries']}", True, key, finding=fid, tags=tuple(tags))
@@ -363,7 +714,9 @@ def judge(case, impl, reply):
     if r.get("tooMany"):
         return Verdict("ok", "", False, key, tags=tuple(tags + ["unjudged:too-many-atoms"]))
     if r.get("readErr") or not r.get("equal"):
+        from .common import uncps
         return Verdict("violation", (f"transformation {t_yaml(case['t'])} on {case['rule']['dets']} / {case['rule']['cond']!r}: emitted {impl['queries'][0]!r} is not equivalent to the "
-                                     f"documented rewrite {rewrite_rule(case)[1]!r}: differs when exactly {c01.show_atoms(r.get('trueAtoms'))} hold; only in query "
+                                     f"documented rewrite {show_doc_part('dets', reply['doc']['dets'])} / {uncps(reply['doc']['conds'][0])!r}: differs when exactly "
+                                     f"{c01.show_atoms(r.get('trueAtoms'))} hold; only in query "
                                      f"{c01.show_atoms(r.get('extraAtoms'))}; only in rewrite {c01.show_atoms(r.get('missingAtoms'))}"), True, key, finding=fid, tags=tuple(tags))
     return Verdict("ok", "", True, key, tags=tuple(tags))
